@@ -2,6 +2,7 @@ import Driver.Util
 import Driver.DictRt
 import Driver.Codec
 import Driver.Stream
+import Driver.Retry
 /-!
   Driver — reads correspondence lines `domain op args… => impl-output` on stdin and prints,
   per line, tab-separated: index, agree|DISAGREE|BADLINE, Spec verdicts (comma separated or
@@ -47,6 +48,11 @@ def handle (st : St) (idx : Nat) (line : String) : St × String :=
           | [mode, cs] => (st, emit idx impl (judgeFind dict ((kvNat rest "app").getD 0) as mode (parseCodes cs) implToks))
           | _ => bad)
        | _, _ => bad)
+    | "retry" :: "write" :: rest =>
+      (match (kv rest "b").bind fromHex with
+       | some b => (st, emit idx impl (judgeRetry ((kvNat rest "r").getD 0) (parseOutcomes ((kv rest "outs").getD "-")) b implToks))
+       | none => bad)
+    | "conn" :: "cwrite" :: _ => (st, emit idx impl (judgeCwrite implToks))
     | "stream" :: "read" :: rest =>
       (match fromHex (rest.getLast?.getD "") with
        | some bs =>
